@@ -55,6 +55,21 @@ def check(run):
         per[v["eco"]][v["construct"]] += 1
     run.extra["rows_per_construct"] = per
     run.extra["probes_rejected_by_version_parser_skipped"] = skipped
+    # vacuity guard: the probes of a release level that the table declares for an ecosystem must not ALL be rejected by
+    # that ecosystem's version parser (a spelling the parser does not accept would silently remove the whole class)
+    seen = {}
+    for k in range(len(shards)):
+        for e in vlib.read_ndjson(run.path("ev%d.ndjson" % k)):
+            if not e["parsed"]: continue
+            for pr in e["probes"]:
+                seen.setdefault((e["eco"], pr["p"][3]), [0, 0])[0] += 1
+            for t in e["skipped"]:
+                seen.setdefault((e["eco"], "skipped"), [0, 0])[1] += 1
+    per_level = {"%s/level%s" % k: v[0] for k, v in sorted(seen.items(), key=str) if k[1] != "skipped"}
+    run.extra["probes_judged_per_ecosystem_and_level"] = per_level
+    for e in ECOS:
+        if seen.get((e, "skipped"), [0, 0])[1] and not any(k[0] == e and k[1] in (1, 2) for k in seen if k[1] != "skipped"):
+            raise vlib.Infra("vacuous: every pre-release probe of %s was rejected by its version parser" % e)
     run.assumptions = ["the table of Shorthand.tla states each ecosystem's documented interval (sources cited in the module); "
                        "probe order is the 4-tuple order (numbers, then pre < final < post), which C03/C08/C09 bind to Compare",
                        "pre-release probes only just below a full base and, for npm, at the documented '-0' upper bound; composer probes stable; pypi probes final or post"]
